@@ -688,4 +688,31 @@ theorem applyOnWindow_add_linear (cfg : Cfg) (hd : cfg.detrending = true) (hsig 
       | ok r =>
         simp only [Except.bind, step7, hd, if_true, zipWith_add_assoc]
 
+theorem sum_sq_eq_zero {α} (f : α → Rat) : ∀ (l : List α), (l.map (fun y => f y * f y)).sum = 0 → ∀ y ∈ l, f y = 0
+  | [], _, y, hy => by simp at hy
+  | a :: l, h, y, hy => by
+      simp only [List.map_cons, List.sum_cons] at h
+      have h1 : 0 ≤ f a * f a := mul_self_nonneg _
+      have h2 : 0 ≤ (l.map (fun y => f y * f y)).sum := by
+        apply List.sum_nonneg
+        intro v hv
+        obtain ⟨w, _, rfl⟩ := List.mem_map.mp hv
+        exact mul_self_nonneg _
+      have ha : f a * f a = 0 := by linarith
+      have hl : (l.map (fun y => f y * f y)).sum = 0 := by linarith
+      rcases List.mem_cons.mp hy with rfl | hy'
+      · exact mul_self_eq_zero.mp ha
+      · exact sum_sq_eq_zero f l hl y hy'
+
+/-- the regression is non-degenerate as soon as the period covers two different years -/
+theorem yearsSS_ne_zero (years : List Int) (h : ∃ a ∈ years, ∃ b ∈ years, a ≠ b) : yearsSS years ≠ 0 := by
+  obtain ⟨a, ha, b, hb, hab⟩ := h
+  intro h0
+  unfold yearsSS at h0
+  have hz := sum_sq_eq_zero (fun (y : Int) => (y : Rat) - meanYear years) (uniqueYears years) h0
+  have h1 := hz a (mem_uniqueYears_of_mem ha)
+  have h2 := hz b (mem_uniqueYears_of_mem hb)
+  have : (a : Rat) = (b : Rat) := by linarith
+  exact hab (by exact_mod_cast this)
+
 end Lemmas.C02
